@@ -30,7 +30,20 @@
      lists     : a Python list that the code only binds to list displays, appends to and returns is kept as an array
                  of scalars; [SAppend] appends one scalar (the translator enforces the "only" and rejects every other
                  use, so that list and array semantics cannot be told apart).
-   Every loop is still a [for] over a range: no [while], no fuel. *)
+   Every loop is still a [for] over a range: no [while], no fuel.
+
+   Added for rlevinson (T5):
+     matrices  : a 2-D array value [VMat] (dtype tag, number of columns, the rows), created only by
+                 numpy.zeros((n, m)[, dtype=complex]); read by U[i, j], U[i, lo:hi:step] (a row), U[lo:hi:step, j] (a column),
+                 written by U[i, j] = x and U[:, j] = v (a 1-D array of len(U) entries, or one entry / a scalar, broadcast);
+                 the translator admits a matrix name in exactly these forms and as an element of a [return] (so no other
+                 variable ever holds a matrix, and 1-D operations never meet one); a wrong shape is ValueError, a bad
+                 index IndexError, as in numpy;
+     calls     : [SCall] runs the body of another translated function of the same module on a fresh store (arguments
+                 evaluated left to right in the caller, omitted ones take the callee's defaults) and binds the n >= 2 values
+                 of its [return] to n slots of the caller ([[a, e[k-1]] = levdown(a, e[k])]: the translator then emits the
+                 stores of the targets, left to right).  Arrays are passed and returned by value; the translator's aliasing
+                 pass is run on the callee too.  A callee that returns another number of values is [Unsupported]. *)
 Require Import Spectrum.Theory.Ops Spectrum.Theory.Vec.
 From Coq Require Import String.
 From Coq Require Export ZArith List.
@@ -73,7 +86,11 @@ Inductive expr :=
 | EIsNone (a : expr)                  (* a is None *)
 | EIsBool (b : bool) (a : expr)       (* a is True / a == True / a is False / a == False *)
 | EIsRealObj (a : expr)               (* numpy.isrealobj(a) on an array *)
-| ENewCrit.                           (* Criteria(name=..., N=...): an abstract order-selection object *)
+| ENewCrit                            (* Criteria(name=..., N=...): an abstract order-selection object *)
+| EZeros2 (n m : expr) (isreal : bool)          (* numpy.zeros((n, m), dtype=float|complex): a matrix *)
+| EIndex2 (a i j : expr)                        (* a[i, j] *)
+| ERowSlice (a i : expr) (lo hi step : option expr)   (* a[i, lo:hi:step] *)
+| EColSlice (a : expr) (lo hi step : option expr) (j : expr).   (* a[lo:hi:step, j] *)
 
 Inductive stmt :=
 | SSkip
@@ -90,7 +107,11 @@ Inductive stmt :=
 | SCritCall (dst : option nat) (obj : nat) (rho k : expr)   (* [dst =] obj(rho=.., k=..) *)
 | SUnsupported                        (* a branch the translator was told not to enter (arburg with a criteria
                                          object is translated; nothing uses this at present) *)
-| SAppend (x : nat) (e : expr).       (* x.append(e) on a Python list of scalars that is only appended to and returned *)
+| SAppend (x : nat) (e : expr)        (* x.append(e) on a Python list of scalars that is only appended to and returned *)
+| SStore2 (x : nat) (i j e : expr)    (* x[i, j] = e on a matrix *)
+| SStoreCol (x : nat) (j e : expr)    (* x[:, j] = e on a matrix *)
+| SCall (dsts : list nat) (nparams : nat) (defaults : list (option expr)) (nslots : nat) (body : stmt) (args : list (option expr)).
+                                      (* [d0, d1, ..] = f(args): the callee's program inlined as a term; fresh store *)
 
 Record program := mkProgram {
   p_name : string;
@@ -109,7 +130,8 @@ Inductive value :=
 | VF (z : F) | VI (n : Z) | VB (b : bool) | VNone | VStr (s : string)
 | VArr (isreal : bool) (l : list F)
 | VCrit (last : option F)
-| VUnbound.
+| VUnbound
+| VMat (isreal : bool) (ncols : nat) (rows : list (list F)).   (* every row has ncols entries *)
 
 Definition store := list value.
 Definition R (A : Type) := (A + exc)%type.
@@ -135,6 +157,7 @@ Fixpoint set (st : store) (x : nat) (v : value) : store :=
 Definition asF (v : value) : R F := match v with VF z => ok z | VI n => ok (ofZ n) | _ => err TypeError end.
 Definition asZ (v : value) : R Z := match v with VI n => ok n | _ => err TypeError end.
 Definition asArr (v : value) : R (bool * list F) := match v with VArr r l => ok (r, l) | _ => err TypeError end.
+Definition asMat (v : value) : R (bool * nat * list (list F)) := match v with VMat r c rows => ok (r, c, rows) | _ => err TypeError end.
 Definition truthy (v : value) : R bool :=
   match v with
   | VB b => ok b | VNone => ok false | VI n => ok (negb (n =? 0)%Z)
@@ -242,6 +265,22 @@ Fixpoint dot (l1 l2 : list F) : F :=
   match l1, l2 with a :: t1, b :: t2 => a * b + dot t1 t2 | _, _ => 0 end.
 Definition imagsq (z : F) : F := - (((z - conj z) / two) * ((z - conj z) / two)).
 
+(* matrices *)
+Definition mrow (rows : list (list F)) (i : nat) : list F := nth i rows [].
+Definition mcol (rows : list (list F)) (j : nat) : list F := map (fun row => nthF row j) rows.
+Definition mzeros (n m : nat) : list (list F) := map (fun _ => mk m (fun _ => 0)) (seq 0 n).
+Fixpoint mupd_row (rows : list (list F)) (i : nat) (f : list F -> list F) : list (list F) :=
+  match rows, i with
+  | [], _ => []
+  | r :: t, O => f r :: t
+  | r :: t, S i' => r :: mupd_row t i' f
+  end.
+Fixpoint mset_col (rows : list (list F)) (j : nat) (vs : list F) : list (list F) :=   (* one value per row *)
+  match rows, vs with
+  | r :: t, v :: vt => updF r j v :: mset_col t j vt
+  | _, _ => []
+  end.
+
 Definition eval_opt (ev : expr -> R value) (o : option expr) : R (option Z) :=
   match o with None => ok None | Some e => v <- ev e ;; n <- asZ v ;; ok (Some n) end.
 
@@ -325,6 +364,25 @@ Fixpoint eval (st : store) (e : expr) {struct e} : R value :=
       match va with VB x => ok (VB (Bool.eqb x b)) | VNone | VStr _ => ok (VB false) | _ => err TypeError end
   | EIsRealObj a => va <- eval st a ;; match va with VArr r _ => ok (VB r) | _ => err TypeError end
   | ENewCrit => ok (VCrit None)
+  | EZeros2 n m r => vn <- eval st n ;; vm <- eval st m ;; k <- asZ vn ;; l <- asZ vm ;;
+      if ((k <? 0) || (l <? 0))%Z then err ValueError else ok (VMat r (Z.to_nat l) (mzeros (Z.to_nat k) (Z.to_nat l)))
+  | EIndex2 a i j => va <- eval st a ;; vi <- eval st i ;; vj <- eval st j ;; m <- asMat va ;; ni <- asZ vi ;; nj <- asZ vj ;;
+      let '(_, nc, rows) := m in
+      ki <- norm_index (length rows) ni ;; kj <- norm_index nc nj ;; ok (VF (nthF (mrow rows ki) kj))
+  | ERowSlice a i lo hi step => va <- eval st a ;; vi <- eval st i ;; m <- asMat va ;; ni <- asZ vi ;;
+      let '(r, nc, rows) := m in
+      ki <- norm_index (length rows) ni ;;
+      l <- eval_opt (eval st) lo ;; h <- eval_opt (eval st) hi ;; s <- eval_opt (eval st) step ;;
+      let s := match s with None => 1%Z | Some v => v end in
+      if (s =? 0)%Z then err ValueError
+      else ok (VArr r (map (fun p => nthF (mrow rows ki) (Z.to_nat p)) (slice_positions nc l h s)))
+  | EColSlice a lo hi step j => va <- eval st a ;; m <- asMat va ;;
+      let '(r, nc, rows) := m in
+      l <- eval_opt (eval st) lo ;; h <- eval_opt (eval st) hi ;; s <- eval_opt (eval st) step ;;
+      vj <- eval st j ;; nj <- asZ vj ;; kj <- norm_index nc nj ;;
+      let s := match s with None => 1%Z | Some v => v end in
+      if (s =? 0)%Z then err ValueError
+      else ok (VArr r (map (fun p => nthF (mcol rows kj) (Z.to_nat p)) (slice_positions (length rows) l h s)))
   end.
 
 Inductive ctl := CNormal | CBreak | CContinue | CRet (vs : list value) | CErr (e : exc).
@@ -345,6 +403,30 @@ Fixpoint for_loop (f : store -> store * ctl) (x : nat) (vs : list Z) (st : store
               | other => other
               end
   end.
+
+(* the call prog(args): an argument that is [None] (omitted by the caller) takes the parameter's default *)
+Fixpoint bind_args (defs : list (option expr)) (args : list (option value)) : R (list value) :=
+  match defs, args with
+  | [], [] => ok []
+  | d :: dt, a :: at' =>
+      v <- match a, d with
+           | Some v, _ => ok v
+           | None, Some e => eval [] e
+           | None, None => err TypeError
+           end ;;
+      r <- bind_args dt at' ;; ok (v :: r)
+  | _, _ => err TypeError
+  end.
+
+(* the arguments of a call inside a program: evaluated left to right in the caller's store *)
+Fixpoint eval_oargs (st : store) (es : list (option expr)) : R (list (option value)) :=
+  match es with
+  | [] => ok []
+  | None :: t => r <- eval_oargs st t ;; ok (None :: r)
+  | Some e :: t => v <- eval st e ;; r <- eval_oargs st t ;; ok (Some v :: r)
+  end.
+Fixpoint set_all (st : store) (xs : list nat) (vs : list value) : store :=
+  match xs, vs with x :: xt, v :: vt => set_all (set st x v) xt vt | _, _ => st end.
 
 Fixpoint exec (s : stmt) (st : store) {struct s} : store * ctl :=
   match s with
@@ -383,23 +465,38 @@ Fixpoint exec (s : stmt) (st : store) {struct s} : store * ctl :=
       try st (va <- get st x ;; rl <- asArr va ;; vv <- eval st e ;; z <- asF vv ;;
               ok (VArr (fst rl && match vv with VI _ => true | _ => false end) (snd rl ++ [z])))
           (fun v => (set st x v, CNormal))
+  | SStore2 x i j e =>
+      try st (va <- get st x ;; m <- asMat va ;; vi <- eval st i ;; vj <- eval st j ;; ni <- asZ vi ;; nj <- asZ vj ;;
+              let '(r, nc, rows) := m in
+              ki <- norm_index (length rows) ni ;; kj <- norm_index nc nj ;;
+              vv <- eval st e ;; z <- asF vv ;; ok (VMat r nc (mupd_row rows ki (fun row => updF row kj z))))
+          (fun v => (set st x v, CNormal))
+  | SStoreCol x j e =>
+      try st (va <- get st x ;; m <- asMat va ;; vj <- eval st j ;; nj <- asZ vj ;;
+              let '(r, nc, rows) := m in
+              kj <- norm_index nc nj ;;
+              vv <- eval st e ;;
+              vs <- match vv with
+                    | VArr _ l => if Nat.eqb (length l) (length rows) then ok l
+                                  else match l with [z] => ok (map (fun _ => z) rows) | _ => err ValueError end
+                    | VF z => ok (map (fun _ => z) rows)
+                    | VI n => ok (map (fun _ => ofZ n) rows)
+                    | _ => err TypeError
+                    end ;;
+              ok (VMat r nc (mset_col rows kj vs)))
+          (fun v => (set st x v, CNormal))
+  | SCall dsts nparams defs nslots body args =>
+      try st (vs <- eval_oargs st args ;; bind_args defs vs)
+          (fun vals =>
+             match exec body (vals ++ repeat VUnbound (nslots - nparams)) with
+             | (_, CRet rs) => if Nat.eqb (length rs) (length dsts) && (2 <=? length dsts)%nat then (set_all st dsts rs, CNormal)
+                               else (st, CErr Unsupported)
+             | (_, CErr e) => (st, CErr e)
+             | (_, CNormal) | (_, CBreak) | (_, CContinue) => (st, CErr TypeError)     (* None cannot be unpacked *)
+             end)
   end.
 
 Inductive outcome := ORet (vs : list value) | OErr (e : exc).
-
-(* the call prog(args): an argument that is [None] (omitted by the caller) takes the parameter's default *)
-Fixpoint bind_args (defs : list (option expr)) (args : list (option value)) : R (list value) :=
-  match defs, args with
-  | [], [] => ok []
-  | d :: dt, a :: at' =>
-      v <- match a, d with
-           | Some v, _ => ok v
-           | None, Some e => eval [] e
-           | None, None => err TypeError
-           end ;;
-      r <- bind_args dt at' ;; ok (v :: r)
-  | _, _ => err TypeError
-  end.
 
 Definition run (p : program) (args : list (option value)) : outcome :=
   match bind_args (p_defaults p) args with
@@ -422,5 +519,6 @@ Arguments VStr {F} _.
 Arguments VArr {F} _ _.
 Arguments VCrit {F} _.
 Arguments VUnbound {F}.
+Arguments VMat {F} _ _ _.
 Arguments ORet {F} _.
 Arguments OErr {F} _.
